@@ -446,4 +446,72 @@ class TargetReachedByOffspring(Budgets):
         return st.builds(fix, cases().filter(lambda c: c["alg"] == "gp" and c["step"] is not None), st.integers(30, 90), st.integers(0, 4), st.integers(0, 40))
 
 
-FACETS = [Budgets(), TargetTranslation(), TargetReachedByOffspring()]
+class SimpleGPTarget(Facet):
+    """The geml entry point: SimpleGP(target_fitness=t, max_evaluations=n, max_time=large) with a fitness
+    function that returns exactly t for the i-th evaluated program (minimising; everything else is
+    worse): the search stops at the first check after that evaluation, for every target value -
+    0 and 0.0 included - and runs to the evaluation budget when there is no target."""
+
+    name = "simplegp_target_fitness"
+
+    def budget(self, tier):
+        return (16, 4) if tier == "quick" else (100, 8)
+
+    def strategy(self, tier):
+        return st.builds(
+            lambda t, at, n, pop, seed: {"target": t, "target_at": at, "evals": n, "pop": pop, "seed": seed},
+            st.sampled_from([0, 0.0, 1, 2.5, -3, None]),
+            st.integers(0, 40),
+            st.integers(60, 150),
+            st.integers(4, 12),
+            st.integers(0, 1000),
+        )
+
+    def run(self, case, rec):
+        from geml.simplegp import SimpleGP
+        from vk.props.c15 import SPEC
+        from vk.spec import materialise
+
+        mat = materialise(SPEC)
+        try:
+            g = mat.grammar()
+            calls = []
+            t = case["target"]
+
+            def ff(p):
+                i = len(calls)
+                v = float(t) if (t is not None and i == case["target_at"]) else 50.0 + (i % 7)
+                calls.append(v)
+                return v
+
+            rec.label("target:" + repr(t))
+            rec.sample(case, limit=2)
+            try:
+                gp = SimpleGP(fitness_function=ff, grammar=g, minimize=True, max_depth=4, max_evaluations=case["evals"], max_time=100000, target_fitness=t,
+                              seed=case["seed"], population_size=case["pop"], elitism=1, novelty=1)
+                gp.search()
+            except Exception as e:  # noqa: BLE001
+                rec.discard()
+                rec.label("discarded:" + type(e).__name__)
+                return
+            n, pop, total = case["evals"], case["pop"], len(calls)
+            if t is not None and case["target_at"] < n:
+                rec.nontrivial((repr(t), case["target_at"], n, pop))
+                # the target is evaluated as call #target_at: at most one more generation may follow
+                if total > case["target_at"] + 1 + pop:
+                    rec.fail(
+                        "C14/simplegp/target-evaluated-but-search-continues",
+                        f"SimpleGP(target_fitness={t!r}, max_evaluations={n}, population_size={pop}): the fitness function returned the target at evaluation #{case['target_at']}, yet {total} evaluations were made",
+                    )
+                    return
+            else:
+                if not (n <= total < n + pop + 1):
+                    rec.fail(
+                        "C14/simplegp/count-window",
+                        f"SimpleGP(target_fitness={t!r}, max_evaluations={n}, population_size={pop}) made {total} evaluations",
+                    )
+        finally:
+            mat.cleanup()
+
+
+FACETS = [Budgets(), TargetTranslation(), TargetReachedByOffspring(), SimpleGPTarget()]
